@@ -597,13 +597,17 @@ def key_to_ascending_key(key: GetItemKeyType, size: int) -> GetItemKeyType:
         if key.dtype == DTYPE_BOOL: #type: ignore
             # a Boolean mask is positional: sorting it would move the selection to the last positions
             return key
+        if key.dtype.kind == 'i' and len(key) and key.min() < 0: #type: ignore
+            # negative positions are normalized before ordering
+            key = np.where(key < 0, key + size, key) #type: ignore
         return np.sort(key, kind=DEFAULT_SORT_KIND)
 
     if not len(key): #type: ignore
         return key
 
     if isinstance(key, list):
-        return sorted(key)
+        # negative positions are normalized before ordering
+        return sorted(k + size if isinstance(k, INT_TYPES) and k < 0 else k for k in key)
 
     if isinstance(key, Series):
         return key.sort_index()
